@@ -75,3 +75,23 @@ package synctree
 //@   requires s != nil && statusUpdater != nil
 //@   assumes s.tree != nil && s.syncClient != nil
 //@   assumes headUpdate != nil ==> ifaceptr(headUpdate) != nil
+
+// ---------------------------------------------------------------------------------------------
+// C01: "we already have these heads" means all of them: a head update or response is treated as already
+// applied only if its head set equals ours or every one of its heads is attached.
+//@ uf sameHeadSet(Slice, Slice) Bool
+//@ package github.com/anyproto/any-sync/util/slice
+//@ func UnsortedEquals
+//@   modifies nothing
+//@   posits [named] result == sameHeadSet(arg0, arg1)
+//@ package github.com/anyproto/any-sync/commonspace/object/tree/synctree
+//@ func iface objecttree.ObjectTree.Heads
+//@   pure
+//@ func iface objecttree.ObjectTree.HasChanges
+//@   pure
+//@ func (*syncTree).hasHeads
+//@   requires ot != nil
+//@   ensures [all_heads_known] result <==> (sameHeadSet(ot.Heads(), heads) || ot.HasChanges(heads))
+//@ func (*syncHandler).hasHeads
+//@   requires ot != nil
+//@   ensures [all_heads_known] result <==> (sameHeadSet(ot.Heads(), heads) || ot.HasChanges(heads))
